@@ -17,7 +17,8 @@ RULE = (
     "(a) pipeline product {weight decay mode} x {beta1/beta3} x {bias correction} x {momentum/nesterov/dampening} x {grafting} x beta2 on layout "
     "[(3,2),(3,2),(5,)] max_dim 3 (two equal-shaped blocks + one 2-block parameter), all mask histories to depth D; (b) all <=2 deviations "
     "from baselines over shape/max_dim/merge/(freq,start)/dtype pair/inv_root_override/exponent multiplier/ignored dims/beta2, histories over "
-    "{all,none,first-only}; (c) two-group optimizers vs independent optimizers (bitwise); (d) one lr/wd/momentum edit at every position. "
+    "{all,none,first-only}; (c) two-group optimizers vs independent optimizers (bitwise); (d) one lr/wd/momentum edit at every position; "
+    "(e) long horizon: every periodic mask pattern (period <= 2 over 3 masks, 10 steps quick; period <= 3 over 4 masks, 13 steps thorough) x (frequency, start) in {(3,3),(2,5),(4,4),(1,1),(5,5)}. "
     "state = digest of (parameters, optimizer.state, param_groups) after each step; non-trivial = history with a mask change or an edit"
 )
 ASSUMPTIONS = [
@@ -37,8 +38,8 @@ GRAFT = [None, ["sgd"], ["adagrad", 1e-1], ["rmsprop", 0.5, 1e-1], ["adam", 0.5,
 
 def bounds(tier):
     return {
-        "quick": {"a": "450 configs x beta2=0.5, depth 2 over all 8 masks; 45 configs depth 3", "b": "<=1 deviation, depth 4", "c": "depth 2", "d": "depth 3, 1 edit"},
-        "thorough": {"a": "450 configs x beta2 in {1,0.5}, depth 3 over all 8 masks", "b": "<=2 deviations, depth 5", "c": "depth 3", "d": "depth 3, 1 edit, 30 configs"},
+        "quick": {"a": "450 configs x beta2=0.5, depth 2 over all 8 masks; 45 configs depth 3", "b": "<=1 deviation, depth 4", "c": "depth 2", "d": "depth 3, 1 edit", "e": "10 steps, periodic masks of period <= 2"},
+        "thorough": {"a": "450 configs x beta2 in {1,0.5}, depth 3 over all 8 masks", "b": "<=2 deviations, depth 5", "c": "depth 3", "d": "depth 3, 1 edit, 30 configs", "e": "13 steps, periodic masks of period <= 3"},
     }[tier]
 
 
@@ -151,6 +152,8 @@ def _work(tier, seed):
             units.append({"part": "c", "cfgs": ch, "depth": 2})
         for ch in common.chunks(cfgs[(seed + 3) % 15 :: 15], 3):
             units.append({"part": "d", "cfgs": ch, "depth": 3})
+        for ch in common.chunks(long_cfgs(tier, seed), 2):
+            units.append({"part": "e", "cfgs": ch, "depth": 10, "nmask": 3})
     else:
         cfgs = pipeline_cfgs([0.5, 1.0], seed)
         for ch in common.chunks(cfgs, 2):
@@ -161,6 +164,8 @@ def _work(tier, seed):
             units.append({"part": "c", "cfgs": ch, "depth": 3})
         for ch in common.chunks(cfgs[(seed + 3) % 15 :: 15], 2):
             units.append({"part": "d", "cfgs": ch, "depth": 3})
+        for ch in common.chunks(long_cfgs(tier, seed), 1):
+            units.append({"part": "e", "cfgs": ch, "depth": 13, "nmask": 4})
     return units
 
 
@@ -185,7 +190,35 @@ def hist_list(part, depth, nparams, nmask=3):
                 for e in edits:
                     hs.append(steps[:pos] + [e] + steps[pos:])
         return hs, None
+    if part == "e":
+        # long horizon: every periodic mask pattern of period <= nmask-1 over the mask alphabet, `depth` steps
+        masks = [[1] * nparams, [1] + [0] * (nparams - 1), [0] + [1] * (nparams - 1), [0] * nparams]
+        masks = [m for i, m in enumerate(masks) if m not in masks[:i]]
+        if nmask <= 3:
+            masks = masks[:3]
+        seen, hs = set(), []
+        for period in range(1, nmask):
+            for pat in itertools.product(range(len(masks)), repeat=period):
+                h = tuple(pat[t % period] for t in range(depth))
+                if h not in seen:
+                    seen.add(h)
+                    hs.append([["step", masks[i]] for i in h])
+        return hs, None
     raise ValueError(part)
+
+
+def long_cfgs(tier, seed):
+    cfgs = pipeline_cfgs([0.5], seed)
+    sel = cfgs[(seed + 7) % 40 :: 40] if tier == "quick" else cfgs[(seed + 7) % 20 :: 20]
+    fss = [(3, 3), (2, 5)] if tier == "quick" else [(3, 3), (2, 5), (4, 4), (1, 1), (5, 5)]
+    out = []
+    for c in sel:
+        for f, st in fss:
+            out.append(dict(c, freq=f, start=st))
+    # SOAP and a higher-order tensor with an override list, over many refresh intervals
+    out.append(seq.cfg_with(seed=seed, precond=["soap", {}], betas=[0.5, 0.5], freq=3, start=3, graft=None))
+    out.append(seq.cfg_with(seed=seed, shapes=[[2, 2, 3], [4]], max_dim=3, merge=False, inv_root_override=[1, 2, 3], freq=2, start=4, betas=[0.5, 0.5], momentum=0.5, graft=["adam", 0.5, 1e-1]))
+    return out
 
 
 def check_one(cfg, hist, part, default_ev):
